@@ -422,6 +422,73 @@ def both(*mons):
         return out
     return m
 
+
+# ---- C17 / C19: flags inside behaviours ------------------------------------------------------------------
+def mon_flags_inside(md_lib, cfg, ops, impl, stats, r=None):
+    """is_flag_active (OR) asked from inside a behaviour of the outermost machine follows the active state the machine
+    reports for the transitioning region at that moment: while a behaviour of a taken transition still reads the source
+    id, the flags are those before the event; once it reads the target id, those after it.  Applied to process_event
+    calls (behaviours only observe) in which exactly one row of the outermost machine is taken and nothing else runs at
+    that level; needs binaries built with -DH_FLAGOBS ('#FL' comment lines)."""
+    raw = (r or {}).get("impl_raw") or []
+    out = []
+    rows = rows_by_id(md_lib)
+    def flagvec(block):
+        v = {}
+        for l in block:
+            if l.startswith("FLAG "):
+                p_ = l.split()
+                v[int(p_[1])] = p_[2].split("=")[1]
+        return "".join(v[k] for k in sorted(v))
+    prev = None
+    for k, block in enumerate(raw):
+        op = ops[k] if k < len(ops) else None
+        cur = flagvec(block)
+        if op and op[0] == "process" and not op[4] and prev is not None and cur and len(cur) == len(prev) and "ESC" not in block:
+            items = []
+            for idx, l in enumerate(block):
+                x = parse(l)
+                if x and x["path"] == "r" and idx + 1 < len(block) and block[idx + 1].startswith("#FL "):
+                    items.append((x, block[idx + 1].split()[3] if len(block[idx + 1].split()) > 3 else ""))
+            taken = [x for x, _ in items if x["tag"] in ("X", "MX")]
+            entered = [x for x, _ in items if x["tag"] in ("N", "MN")]
+            all_r = [parse(l) for l in block if parse(l)]
+            same_occ = all((x["ety"], x["pay"]) == (op[1], op[2]) for x in all_r)
+            n_exit_r = len([x for x in all_r if x["tag"] == "X" and x["path"] == "r"]) + len([x for x in all_r if x["tag"] == "MX" and x["path"].count(".") == 1])
+            inner_rows = [x for x in all_r if x["tag"] in ("G1", "A") and x["path"] != "r"]
+            if same_occ and n_exit_r == 1 and not inner_rows:
+                # the transitioning region's source / target ids, from the exit / entry items of this level
+                src = next((x["id"] if x["tag"] == "X" else int(x["path"].split(".")[1]) for x in all_r
+                            if (x["tag"] == "X" and x["path"] == "r") or (x["tag"] == "MX" and x["path"].count(".") == 1)), None)
+                tgt = next((x["id"] if x["tag"] == "N" else int(x["path"].split(".")[1]) for x in all_r
+                            if (x["tag"] == "N" and x["path"] == "r") or (x["tag"] == "MN" and x["path"].count(".") == 1)), None)
+                if src is None or tgt is None or src == tgt:
+                    prev = cur if cur else prev
+                    continue
+                region = md_lib["states"][src]["zone"] if 0 <= src < len(md_lib["states"]) else None
+                for x, bits in items:
+                    if region is None or region >= len(x["obs"]) or x["tag"] in ("G0", "NT", "EC") or len(bits) != len(cur):
+                        continue
+                    seen = x["obs"][region]
+                    exp = prev if seen == src else cur if seen == tgt else None
+                    if seen == tgt and 0 <= tgt < len(md_lib["states"]) and md_lib["states"][tgt]["sub"] is not None and x["tag"] not in ("N", "MN"):
+                        # the target is a submachine that has not been entered yet: what its regions still hold from the
+                        # last visit is not a configuration the property speaks about
+                        continue
+                    if exp is None:
+                        continue
+                    stats.nontrivial.add(("flags-inside", x["tag"], seen == src))
+                    stats.dist[("flags asked inside a behaviour", "source reported" if seen == src else "target reported")] += 1
+                    if bits != exp:
+                        out.append("op %d: behaviour %s %d of the outermost machine reads id %d (%s) for region %d, is_flag_active answers %s, the flags of that configuration are %s"
+                                   % (k, x["tag"], x["id"], seen, "source" if seen == src else "target", region, bits, exp))
+                        break
+        if cur:
+            prev = cur
+        if out:
+            break
+    return out
+
 # ---- C03 ---------------------------------------------------------------------------------------------
 def mon_C03(md_lib, cfg, ops, impl, stats, r=None):
     out = []
